@@ -87,6 +87,8 @@ pub enum Edit {
     /// table, or a raw offset when beyond it)
     SetU64 { at: u16, val: u8, be: bool },
     Truncate(u32),
+    /// truncate exactly at a structural boundary (start of a slot / region)
+    TruncateAt(u16),
     Extend(u16, u8),
     Splice { from: u8, src: u32, len: u16, dst: u32 },
     /// replace a 48-byte compressed G1 slot
@@ -95,6 +97,8 @@ pub enum Edit {
     RawG1 { slot: u16, kind: u8 },
     /// replace a 32-byte scalar slot
     Scalar { slot: u16, kind: u8 },
+    /// replace a 96-byte compressed G2 slot of an opening key
+    G2 { slot: u16, kind: u8 },
     /// compressed circuits: apply the edits to the inflated payload
     Inner(Vec<Edit>),
 }
@@ -117,10 +121,11 @@ pub struct Regions {
     pub g1_slots: Vec<usize>,
     pub raw_slots: Vec<usize>,
     pub scalar_slots: Vec<usize>,
+    pub g2_slots: Vec<usize>,
 }
 
 pub fn regions(target: u8, b: &[u8]) -> Regions {
-    let mut r = Regions { u64_offsets: Vec::new(), g1_slots: Vec::new(), raw_slots: Vec::new(), scalar_slots: Vec::new() };
+    let mut r = Regions { u64_offsets: Vec::new(), g1_slots: Vec::new(), raw_slots: Vec::new(), scalar_slots: Vec::new(), g2_slots: Vec::new() };
     match target {
         T_PROVER if b.len() >= 48 => {
             for i in 0..6 {
@@ -162,6 +167,8 @@ pub fn regions(target: u8, b: &[u8]) -> Regions {
             }
             let ok = vk.saturating_add(vkl).min(b.len());
             r.g1_slots.push(ok);
+            r.g2_slots.push(ok + 48);
+            r.g2_slots.push(ok + 144);
             let pis = ok.saturating_add(okl).min(b.len());
             let mut o = pis;
             while o + 8 <= b.len() && r.u64_offsets.len() < 64 {
@@ -179,6 +186,8 @@ pub fn regions(target: u8, b: &[u8]) -> Regions {
         }
         T_PP => {
             r.g1_slots.push(0);
+            r.g2_slots.push(48);
+            r.g2_slots.push(144);
             let mut o = 240;
             while o + 48 <= b.len() && r.g1_slots.len() < 600 {
                 r.g1_slots.push(o);
@@ -314,6 +323,20 @@ pub fn crafted_raw_g1(kind: u8) -> [u8; 97] {
     }
 }
 
+pub fn crafted_g2(kind: u8) -> [u8; 96] {
+    use dusk_bls12_381::G2Affine;
+    match kind % 4 {
+        0 => G2Affine::identity().to_bytes(),
+        1 => G2Affine::generator().to_bytes(),
+        2 => [0xff; 96],
+        _ => {
+            let mut b = G2Affine::generator().to_bytes();
+            b[0] |= 0x40;
+            b
+        }
+    }
+}
+
 pub fn crafted_scalar(kind: u8) -> [u8; 32] {
     match kind % 5 {
         0 => R_MOD.to_le_bytes(),
@@ -359,6 +382,24 @@ pub fn apply_edits(target: u8, mut b: Vec<u8>, edits: &[Edit]) -> Vec<u8> {
                     b.truncate(keep);
                 }
             }
+            Edit::TruncateAt(i) => {
+                let mut offs: Vec<usize> = reg
+                    .u64_offsets
+                    .iter()
+                    .map(|(o, _)| *o)
+                    .chain(reg.g1_slots.iter().copied())
+                    .chain(reg.raw_slots.iter().copied())
+                    .chain(reg.g2_slots.iter().copied())
+                    .chain(reg.scalar_slots.iter().copied())
+                    .filter(|o| *o <= b.len())
+                    .collect();
+                offs.sort();
+                offs.dedup();
+                if !offs.is_empty() {
+                    let keep = offs[*i as usize % offs.len()];
+                    b.truncate(keep);
+                }
+            }
             Edit::Extend(n, byte) => {
                 let n = (*n as usize) % 300;
                 b.extend(std::iter::repeat(*byte).take(n));
@@ -398,6 +439,12 @@ pub fn apply_edits(target: u8, mut b: Vec<u8>, edits: &[Edit]) -> Vec<u8> {
                 if !reg.scalar_slots.is_empty() {
                     let off = reg.scalar_slots[*slot as usize % reg.scalar_slots.len()];
                     put(&mut b, off, &crafted_scalar(*kind));
+                }
+            }
+            Edit::G2 { slot, kind } => {
+                if !reg.g2_slots.is_empty() {
+                    let off = reg.g2_slots[*slot as usize % reg.g2_slots.len()];
+                    put(&mut b, off, &crafted_g2(*kind));
                 }
             }
             Edit::Inner(inner) => {
@@ -446,7 +493,14 @@ pub fn script_from_bytes(data: &[u8]) -> Script {
     let count = 1 + next(1) as usize % 4;
     let mut edits = Vec::new();
     let one = |next: &mut dyn FnMut(usize) -> u64| -> Edit {
-        match next(1) % 8 {
+        match next(1) % 9 {
+            8 => {
+                if next(1) % 2 == 0 {
+                    Edit::G2 { slot: next(2) as u16, kind: next(1) as u8 }
+                } else {
+                    Edit::TruncateAt(next(2) as u16)
+                }
+            }
             0 => Edit::Flip(next(4) as u32),
             1 => Edit::SetU64 { at: next(2) as u16, val: next(1) as u8, be: next(1) % 2 == 0 },
             2 => Edit::Truncate(next(4) as u32),
